@@ -53,6 +53,12 @@ pub fn datasets(tier: &str) -> Vec<(String, Vec<(usize, Row)>)> {
     ];
     let mut out = vec![("base8".to_string(), base.clone())];
     out.push(("first4".to_string(), base[..4].to_vec()));
+    // one long group with nulls at various positions of the optional field (vectorised
+    // aggregation works on runs of one group), and a data set of negative values only
+    let os = [Some(1), None, Some(3), Some(4), Some(5), Some(6), None, Some(8), Some(9), None, Some(11)];
+    out.push(("nullrun11".to_string(), os.iter().enumerate().map(|(i, o)| (0usize, row(i as i64 + 1, "c0", i as i64 + 1, i as f64 + 0.5, "a", true, "x", *o, 1700000000 + i as i64))).collect()));
+    let neg = [-5i64, -3, -9, -1, -7];
+    out.push(("allneg5".to_string(), neg.iter().enumerate().map(|(i, k)| (0usize, row(i as i64 + 1, if i % 2 == 0 { "c0" } else { "c1" }, *k, *k as f64 - 0.5, if i < 3 { "a" } else { "b" }, i % 2 == 0, "y", Some(*k * 2), 1700000000 + 3600 * i as i64))).collect()));
     if tier != "quick" {
         out.push(("last5".to_string(), base[3..].to_vec()));
         out.push(("only-g-3".to_string(), base.iter().filter(|r| r.0 == 0).take(3).cloned().collect()));
@@ -247,6 +253,10 @@ fn build_queries(tier: &str) -> (Vec<String>, Vec<AggQ>) {
         Metric::Total("p"),
         Metric::Avg("k"),
         Metric::Avg("p"),
+        Metric::Avg("o"),
+        Metric::Total("o"),
+        Metric::Min("o"),
+        Metric::Max("o"),
         Metric::Min("k"),
         Metric::Max("k"),
         Metric::Min("s"),
@@ -283,6 +293,11 @@ fn build_queries(tier: &str) -> (Vec<String>, Vec<AggQ>) {
         }
     }
     add(&mut texts, 0, vec![Metric::Count, Metric::Total("k")], vec!["b"], None, None);
+    // metric lists that keep the columnar (vectorised) path: COUNT / TOTAL / AVG only
+    for by in [vec![], vec!["b"], vec!["s"]] {
+        add(&mut texts, 0, vec![Metric::Count, Metric::Total("o"), Metric::Avg("o")], by.clone(), None, None);
+        add(&mut texts, 0, vec![Metric::Total("k"), Metric::Avg("k"), Metric::Avg("p")], by.clone(), None, None);
+    }
     add(&mut texts, 0, vec![Metric::Avg("p"), Metric::Max("k"), Metric::CountUnique("s")], vec!["e"], None, None);
     let core = vec![Metric::Count, Metric::Total("k"), Metric::Avg("p"), Metric::Min("s"), Metric::CountUnique("s")];
     for g in ["HOUR", "DAY", "WEEK", "MONTH", "YEAR"] {
